@@ -67,9 +67,11 @@ pub fn case_damage(scratch: &Path, meta: usize, id: &str, seed: u64, len: usize,
     // main history: generated, or the replayed main-line ops up to `close`
     let mut fixed: Option<Vec<Op>> = None;
     let mut fixed_variants: Vec<Vec<Op>> = Vec::new();
+    let mut fixed_conts: Vec<Vec<Op>> = Vec::new();
     if let Some(case) = replay {
         let mut main = Vec::new();
         let mut after_close = false;
+        let mut reopened = false;
         for (_, op) in &case.ops {
             if !after_close {
                 if matches!(op, Op::Close) {
@@ -79,10 +81,20 @@ pub fn case_damage(scratch: &Path, meta: usize, id: &str, seed: u64, len: usize,
                 }
             } else {
                 match op {
-                    Op::Restore => fixed_variants.push(Vec::new()),
+                    Op::Restore => {
+                        fixed_variants.push(Vec::new());
+                        fixed_conts.push(Vec::new());
+                        reopened = false;
+                    }
+                    Op::Reopen(_) => reopened = true,
                     Op::Poke { .. } | Op::SetLenFile { .. } | Op::RmFile(_) | Op::CopyFile { .. } | Op::CopyBlock { .. } => {
                         if let Some(v) = fixed_variants.last_mut() {
                             v.push(op.clone());
+                        }
+                    }
+                    o if o.is_mutating() && reopened => {
+                        if let Some(v) = fixed_conts.last_mut() {
+                            v.push(o.clone());
                         }
                     }
                     _ => {}
@@ -382,6 +394,105 @@ pub fn case_damage(scratch: &Path, meta: usize, id: &str, seed: u64, len: usize,
                             r.violate("C12", format!("{}: a batch of queue {:?} was recovered with a hole or a missing tail: {:?}", ctx, bt.q, present));
                         }
                         r.stats.inc("c12.batches_checked");
+                    }
+                }
+                // continuation on the damaged log, then a second restart: whatever damage did, the
+                // log must still hold nothing but appended records and whole batches afterwards
+                let cont_ops: Option<Vec<Op>> = if replay.is_some() {
+                    fixed_conts.get(v).filter(|c| !c.is_empty()).cloned()
+                } else if in_place && !copies_valid && !forged && rng.chance(1, 3) {
+                    Some(Vec::new())
+                } else {
+                    None
+                };
+                if let Some(fixed_cont) = cont_ops {
+                    let saved = r.spec.clone();
+                    r.spec = crate::spec::Spec::default();
+                    for (name, q) in &obs {
+                        r.spec.queues.insert(name.clone(), crate::spec::SQueue { next: q.next(), recs: q.recs.clone(), files: vec![0; q.recs.len()], incarnation: 1 });
+                    }
+                    let mut appended2 = appended.clone();
+                    let mut batches2: Vec<Vec<(u64, Vec<u8>)>> = Vec::new();
+                    let mut bq: Vec<String> = Vec::new();
+                    let ccfg = GenCfg { allow_reopen: false, allow_rejected: false, allow_persist: false, max_queues: 1, big_weight: 8, ..Default::default() };
+                    let todo: Vec<Op> = if replay.is_some() { fixed_cont } else {
+                        let mut t = Vec::new();
+                        for _ in 0..(4 + rng.below(6)) {
+                            if r.spec.queues.is_empty() { break; }
+                            let op = gen_op(&r, &mut rng, &ccfg);
+                            if matches!(op, Op::Append { .. } | Op::Truncate { .. }) {
+                                let _ = r.spec.step(&op, 0);
+                                t.push(op);
+                            }
+                        }
+                        t
+                    };
+                    let mut alive = true;
+                    for op in &todo {
+                        let ex3 = r.real.exec(op);
+                        r.record(op, &ex3);
+                        if ex3.outcome.is_panic() {
+                            r.violate("C10", format!("{}; continuation `{}` panicked", ctx, &op.line()[..op.line().len().min(80)]));
+                            alive = false;
+                            break;
+                        }
+                        if let (Op::Append { q, payloads, .. }, Outcome::Appended(Some(last), _)) = (op, &ex3.outcome) {
+                            let n = payloads.len() as u64;
+                            let recs: Vec<(u64, Vec<u8>)> = payloads.iter().enumerate().map(|(i, p)| (last + 1 - n + i as u64, p.bytes())).collect();
+                            for (p, b) in &recs {
+                                appended2.insert((q.clone(), *p, b.clone()));
+                            }
+                            if recs.len() >= 2 {
+                                batches2.push(recs);
+                                bq.push(q.clone());
+                            }
+                        }
+                    }
+                    r.spec = saved;
+                    r.stats.inc("damage.continuations");
+                    if alive {
+                        let ro = Op::Reopen(Pol::AlwaysFlush);
+                        let ex4 = r.real.exec(&ro);
+                        r.record(&ro, &ex4);
+                        match &ex4.outcome {
+                            Outcome::OpenOk(_) => {
+                                let st = Op::State;
+                                let ex5 = r.real.exec(&st);
+                                r.record(&st, &ex5);
+                                if let Ok(obs2) = catch_unwind(AssertUnwindSafe(|| observe(r.real.log.as_ref().unwrap()))) {
+                                    for (name, q) in &obs2 {
+                                        if let Some((p, b)) = q.recs.iter().find(|(p, b)| !appended2.contains(&(name.clone(), *p, b.clone()))) {
+                                            r.violate("C08", format!("{}; after a continuation and a second restart: record {} of queue {:?} was never appended", ctx, rec_s(*p, b), name));
+                                        }
+                                    }
+                                    for (recs, qn) in batches2.iter().zip(bq.iter()) {
+                                        if let Some(q) = obs2.get(qn) {
+                                            let present: Vec<bool> = recs.iter().map(|b| q.recs.contains(b)).collect();
+                                            let first_true = present.iter().position(|p| *p).unwrap_or(present.len());
+                                            if present[first_true..].iter().any(|p| !*p) {
+                                                r.violate("C12", format!("{}; after a continuation and a second restart: a batch of queue {:?} has a hole or a missing tail: {:?}", ctx, qn, present));
+                                            }
+                                        }
+                                    }
+                                    for bt in batches.iter() {
+                                        if final_spec.queues.get(&bt.q).map(|s| s.incarnation) != Some(bt.incarnation) {
+                                            continue;
+                                        }
+                                        if let Some(q) = obs2.get(&bt.q) {
+                                            let present: Vec<bool> = bt.recs.iter().map(|b| q.recs.contains(b)).collect();
+                                            let first_true = present.iter().position(|p| *p).unwrap_or(present.len());
+                                            if present[first_true..].iter().any(|p| !*p) {
+                                                r.violate("C12", format!("{}; after a continuation and a second restart: a batch of queue {:?} was recovered with a hole or a missing tail: {:?}", ctx, bt.q, present));
+                                            }
+                                        }
+                                    }
+                                } else {
+                                    r.violate("C10", format!("{}; after a continuation and a second restart a read accessor panicked", ctx));
+                                }
+                            }
+                            Outcome::OpenErrCorruption | Outcome::OpenErrIo => {}
+                            other => r.violate("C10", format!("{}; second restart panicked or hung: {:?}", ctx, other)),
+                        }
                     }
                 }
                 r.real.log = None;
